@@ -148,7 +148,7 @@ class C07(runner.Check):
 		pX = mw.gen_onehot(seed, 4, mspec["L"], dtype=dt)
 		pargs = ()
 		if mspec.get("n_args", 0):
-			pargs = (torch.tensor([[0.5], [-0.25], [1.0], [0.0]], dtype=dt),)
+			pargs = mw.make_args(mspec, 4, dt, lo=-0.5, hi=1.0)
 		return pX, pargs
 
 	def run_case(self, case):
